@@ -22,7 +22,7 @@ from ..world import Violation
 
 ID = "C08"
 LEVEL = "exploration"
-BUDGET = {"quick": 150, "thorough": 1500}
+BUDGET = {"quick": 300, "thorough": 1500}
 JOB_TIMEOUT = 240
 MINIMISE_S = {"quick": 60, "thorough": 240}
 RULE = ("a case = one history on one engine: 1-4 program segments of New(n)/Del/Coherent/Vacuum/Dgate/Rgate/BSgate/LossChannel/"
@@ -52,11 +52,11 @@ def warm(tier):
 def batches(tier):
     if tier == "quick":
         return [
-            {"name": "gaussian", "runs": 2400, "weight": 3},
-            {"name": "bosonic", "runs": 1200, "weight": 2, "seed_offset": 100000},
-            {"name": "fock", "runs": 400, "weight": 5, "seed_offset": 200000},
-            {"name": "gaussian-crash", "runs": 600, "weight": 1, "seed_offset": 300000},
-            {"name": "fock-crash", "runs": 100, "weight": 2, "seed_offset": 400000},
+            {"name": "gaussian", "runs": 7200, "weight": 3},
+            {"name": "bosonic", "runs": 3600, "weight": 2, "seed_offset": 100000},
+            {"name": "fock", "runs": 1200, "weight": 5, "seed_offset": 200000},
+            {"name": "gaussian-crash", "runs": 1800, "weight": 1, "seed_offset": 300000},
+            {"name": "fock-crash", "runs": 300, "weight": 2, "seed_offset": 400000},
         ]
     return [
         {"name": "gaussian", "runs": 60000, "weight": 3},
